@@ -45,9 +45,58 @@ def _closure_parts(text, m, open_paren):
     if body.startswith('->'):
         raise ValueError('closure with return type in adapter')
     bm = rsparse.mask(body)
+    if re.search(r'\breturn\b', bm):
+        body = eliminate_guard_returns(body)
+        bm = rsparse.mask(body)
     if re.search(r'\breturn\b', bm) or '?' in bm:
         raise ValueError('closure body with return/? cannot be inlined')
     return pat, body, close
+
+def eliminate_guard_returns(body):
+    """`{ if C { A; return E; } REST }`  ->  `{ if C { A; E } else { REST } }`   (guard-style early returns at the
+    start of a closure block; applied repeatedly).  Inside a closure `return E` yields E as the closure's value, so
+    the two forms are equivalent.  Anything else is left alone (and then refused by the caller)."""
+    b = body.strip()
+    if not (b.startswith('{') and b.endswith('}')):
+        return body
+    inner = b[1:-1]
+    m = rsparse.mask(inner)
+    mm = re.match(r'\s*if\b', m)
+    if not mm:
+        return body
+    # find the '{' opening the if-block (first '{' at depth 0 after the condition)
+    k = mm.end(); n = len(m)
+    while k < n:
+        if m[k] in '([':
+            k = rsparse.match_close(m, k) + 1; continue
+        if m[k] == '{': break
+        k += 1
+    if k >= n: return body
+    close = rsparse.match_close(m, k)
+    after = m[close + 1:]
+    if re.match(r'\s*else\b', after):
+        return body
+    blk = inner[k + 1:close]
+    bm = rsparse.mask(blk)
+    r = None
+    for r in re.finditer(r'\breturn\b', bm): pass
+    if r is None: return body
+    # the return must be the last statement of the block: `return EXPR;` followed only by whitespace
+    tail = bm[r.end():]
+    semi = None; depth = 0
+    for i, ch in enumerate(tail):
+        if ch in '([{': depth += 1
+        elif ch in ')]}': depth -= 1
+        elif ch == ';' and depth == 0: semi = i; break
+    if semi is None or tail[semi + 1:].strip() != '' or len(re.findall(r'\breturn\b', bm)) != 1:
+        return body
+    expr = blk[r.end():r.end() + semi].strip()
+    new_blk = blk[:r.start()] + expr + '\n'
+    rest = inner[close + 1:]
+    rest_block = '{' + rest + '}'
+    if re.search(r'\breturn\b', rsparse.mask(rest)):
+        rest_block = eliminate_guard_returns(rest_block)
+    return '{' + inner[:k + 1] + new_blk + '} else ' + rest_block + '}'
 
 def _receiver_start(text, m, dot):
     """index where the postfix expression ending just before text[dot]=='.' starts"""
